@@ -14,11 +14,13 @@ T5 == [r |-> <<"a", "b">>, a |-> <<"c">>, b |-> << >>, c |-> << >>]
 T6 == [r |-> <<"a">>, a |-> <<"b", "c">>, b |-> << >>, c |-> << >>]
 T7 == [r |-> <<"a", "b", "c">>, a |-> << >>, b |-> << >>, c |-> << >>]
 T8 == [r |-> <<"a">>, a |-> <<"b">>, b |-> <<"c">>, c |-> << >>]
-MCTrees == {T1, T2, T3, T4, T5, T6, T7, T8}
+MCTreesAll == {T1, T2, T3, T4, T5, T6, T7, T8}
+MCTreesQuick == {T1, T2, T3, T4, T5}
+CONSTANT MCTrees
 
 MCInit == \E ch \in MCTrees :
             \E as \in [DOMAIN ch -> BOOLEAN] :
-              \E oc \in [DOMAIN ch -> {"ok", "err", "panic"}] :
+              \E oc \in [DOMAIN ch -> {"ok", "err", "panic", "planpanic"}] :
                 InitWith(ch, "r", as, oc)
 
 MCSpec == MCInit /\ [][Next]_vars /\ WF_vars(Next)
